@@ -201,6 +201,10 @@ func newSchedGen(r *RNG, tier string, profile string) *schedGen {
 		}
 		if r.Bool(70) {
 			g.ops = append(g.ops, mkOp("sthread", "name", "f", "ops", "flush"))
+			// two Flush callers (the periodic flusher and an explicit call) overlap each other and the writers
+			if r.Bool(45) {
+				g.ops = append(g.ops, mkOp("sthread", "name", "f2", "ops", []string{"flush", "flush,flush"}[r.Intn(2)]))
+			}
 		}
 		if window {
 			gop := "pgc:" + strconv.Itoa([]int{85, 100, 50}[r.Intn(3)])
